@@ -161,16 +161,28 @@ def c_final_target(P):
         kf = z3.Function("seen_key", IntS, StrS)
         return SMap(lambda k: has(zstr(k)), lambda k: None, tag="paths_seen", keys_seq=SSeq(nk, lambda i: SStr(kf(zint(i))), tag="seen_keys"))
 
+    def by_role(view_or_dict, pred):
+        d = view_or_dict if isinstance(view_or_dict, dict) else view_or_dict.frame.locals
+        return next((v for k, v in d.items() if not k.startswith("__") and k != "self" and pred(v)), None)
+
+    def default_hint(P_, nm, cur):
+        # roles, not names: the alias being followed, and the set of paths already seen
+        if isinstance(cur, SObj):
+            return hint_target(P_, nm)
+        if isinstance(cur, (dict, SMap)):
+            return hint_seen(P_, nm)
+        return None
+
     def post_body(P_, before, after):
-        cur = before["target"]
-        seen = after["paths_seen"]
+        cur = by_role(before, lambda v: isinstance(v, SObj))
+        seen = by_role(after, lambda v: isinstance(v, SMap))
         P_.prove("iteration_inserts_exactly_one_key", len(seen.writes) == 1)
         if len(seen.writes) == 1:
             k, v = seen.writes[0]
             P_.prove("inserted_key_is_path_of_visited_alias", zstr(k) == H.path_of(cur))
             P_.prove("inserted_key_was_absent", z3.Not(zbool(seen.has0(k))))
         P_.prove("visited_object_was_an_alias", models._isinst1(P_, cur, "Alias"))
-    P.loop_specs[(q, 0)] = dict(mode="inv", name="chain", hints={"target": hint_target, "paths_seen": hint_seen}, post_body=post_body)
+    P.loop_specs[(q, 0)] = dict(mode="inv", name="chain", hints={}, default_hint=default_hint, post_body=post_body)
     kind, res = outcome(P, lambda: P.call_closure(fn_closure(P, q), [a], {}))
     if kind == "raise":
         P.prove("raises_only_alias_errors", P.resolve_cls(res) in ("AliasResolutionError", "CyclicAliasError"), exc=P.resolve_cls(res))
